@@ -36,6 +36,8 @@ func init() {
 }
 
 func runC18(c *an.Ctx) {
+	checkFieldMap(c, "C18-R6", "cmd.(servers).toInternal", "agd.TCPConfig", map[string]string{
+		"IdleTimeout": ".TCPIdleTimeout.Duration", "MaxPipelineCount": ".TCP.MaxPipelineCount", "MaxPipelineEnabled": ".TCP.Enabled"})
 	c.Floor("C18-R1", 2)
 	c.Floor("C18-R2", 6)
 	c.Floor("C18-R3", 2)
